@@ -867,7 +867,19 @@ func (w *treeW) afterMutation(pos int, boundary bool, isDel bool, wasPresent boo
 	if wasPresent {
 		pres = 1
 	}
-	w.r.State(uint64(w.depth)<<40 | uint64(rc)<<32 | uint64(kind)<<24 | uint64(op)<<16 | uint64(live)<<8 | uint64(pres)<<4 | uint64(w.order))
+	// leaf occupancy class before the operation: minimal, middle, full (or key found above a leaf / absent)
+	lc := 0
+	switch tn := w.st.touchedN(); {
+	case tn < 0:
+		lc = 0
+	case tn <= tMinKeys:
+		lc = 1
+	case tn >= tMaxKeys:
+		lc = 3
+	default:
+		lc = 2
+	}
+	w.r.State(uint64(w.depth)<<40 | uint64(rc)<<32 | uint64(kind)<<24 | uint64(op)<<16 | uint64(live)<<8 | uint64(pres)<<4 | uint64(w.order) | uint64(lc)<<48)
 }
 
 // ---- operations with the C01 oracle --------------------------------------------------------------
@@ -1363,6 +1375,7 @@ func (w *treeW) iterNext(slot int) {
 				it.lo, it.hi, w.lastStr(it), w.keyOf(x, 0), w.m.ent[x].ins, it.lastEv)
 			return
 		}
+		w.iterState(it, 2)
 		w.iterProbes(it)
 		it.done = true
 		it.parkPos = -1
@@ -1412,6 +1425,7 @@ func (w *treeW) iterNext(slot int) {
 		w.violate("C02", "iter/too-many-yields", "iterator yielded %d keys, only %d distinct keys were ever present", it.yields, w.m.everCnt)
 		return
 	}
+	w.iterState(it, 1)
 	w.iterProbes(it)
 	if it.insertedBeyond == g {
 		w.r.Probe("iter-yields-key-inserted-beyond")
@@ -1426,6 +1440,17 @@ func (w *treeW) lastStr(it *tIter) string {
 		return "its creation (nothing yielded yet)"
 	}
 	return fmt.Sprintf("key %d", w.keyOf(it.lastPos, 0))
+}
+
+// iterState records (depth, direction, bound kinds, what happened to the parked position, outcome).
+func (w *treeW) iterState(it *tIter, outcome int) {
+	f := 0
+	for i, b := range []bool{it.fDeleted, it.fSplit, it.fGone, it.fCollapse, it.fEmptied, it.rev, it.yields == 0} {
+		if b {
+			f |= 1 << uint(i)
+		}
+	}
+	w.r.State(1<<60 | uint64(w.depth)<<40 | uint64(f)<<24 | uint64(it.lo.kind*3+it.hi.kind)<<8 | uint64(outcome))
 }
 
 func (w *treeW) iterProbes(it *tIter) {
